@@ -9,6 +9,8 @@ package main
 import (
 	"bytes"
 	"fmt"
+	"strconv"
+	"strings"
 
 	"go.minekube.com/connect"
 	"google.golang.org/protobuf/encoding/protowire"
@@ -339,6 +341,31 @@ func (g gen) message() msg {
 	}
 }
 
+// bb prints bytes as a packed Uint63 list (B form) unless very short: hex string literals cost about
+// six times more to elaborate in coqc, and these case files are literal-bound.
+func bb(b []byte) string {
+	if len(b) <= 7 {
+		return lib.Bytes(b)
+	}
+	var sb strings.Builder
+	fmt.Fprintf(&sb, "(B %d [", len(b))
+	for i := 0; i < len(b); i += 7 {
+		var v uint64
+		for j := 6; j >= 0; j-- {
+			v <<= 8
+			if i+j < len(b) {
+				v |= uint64(b[i+j])
+			}
+		}
+		if i > 0 {
+			sb.WriteString(";")
+		}
+		sb.WriteString(strconv.FormatUint(v, 10))
+	}
+	sb.WriteString("]%uint63)")
+	return sb.String()
+}
+
 // nested builds depth start-group tags of field num, then the matching end-group tags.
 func nested(num uint64, depth int) []byte {
 	var b []byte
@@ -424,7 +451,7 @@ func main() {
 			desc["observed"] = "nil"
 		default:
 			obs = lib.App("ROk", lib.Some(lib.App("mkP", lib.Z(int64(w.Protocol)), lib.Str(w.EndpointID), lib.Str(w.OrganizationID),
-				lib.Bytes(w.ConnectSessionNonce[:]), lib.Z(int64(w.SourceProtocolVersion)), lib.Z(w.PolicyRevision), lib.Bytes(w.Envelope))))
+				bb(w.ConnectSessionNonce[:]), lib.Z(int64(w.SourceProtocolVersion)), lib.Z(w.PolicyRevision), bb(w.Envelope))))
 			class = "wire"
 			if w.HasEnvelope() {
 				class = "wire+envelope"
@@ -433,7 +460,7 @@ func main() {
 				"nonce_hex": fmt.Sprintf("%x", w.ConnectSessionNonce), "spv": w.SourceProtocolVersion, "rev": w.PolicyRevision, "envelope_len": len(w.Envelope)}
 		}
 		nontrivial := err != nil || w != nil
-		out.Add(lib.App("Check.C41.mk", lib.Bytes(unknown), obs), desc, nontrivial, "kind="+m.kind, "via="+via, "result="+class)
+		out.Add(lib.App("Check.C41.mk", bb(unknown), obs), desc, nontrivial, "kind="+m.kind, "via="+via, "result="+class)
 	}
 
 	n := f.Count(1960)
